@@ -37,6 +37,12 @@ type SubCfg struct {
 	UO bool       `json:"uo,omitempty"`
 }
 
+// Block is one blocked Send of a stall plan.
+type Block struct {
+	At   int `json:"at"`
+	Hold int `json:"hold"`
+}
+
 // Resp is a projected SubscribeResponse.
 type Resp struct {
 	K   string   `json:"k"` // upd del sync other
@@ -68,6 +74,9 @@ type Case struct {
 	Note     string   `json:"note,omitempty"`
 	// C08: per subscriber 0 never stalled, 1 stalled until the last write is done, 2 stalled for ever
 	Stall []int `json:"stall"`
+	// C08: per subscriber the Sends of phase 2 (1-based ordinal) that block, and for how
+	// many further writes (0 = for ever)
+	Plan [][]Block `json:"plan,omitempty"`
 	// C08: the last subscriber starts when everything else is over (Stall 0)
 	Late      bool `json:"late,omitempty"`
 	TimeoutMs int  `json:"timeout_ms"`
@@ -88,6 +97,7 @@ type Obs struct {
 	Coal       []int      `json:"coal,omitempty"`       // ClientStats.CoalesceCount at the end
 	Returned   bool       `json:"returned"`             // every write returned within 5 s
 	WhileBlock int        `json:"writes_while_blocked"` // writes made while a Send was blocked
+	Log        []string   `json:"log,omitempty"`        // the run as a sequence of atomic steps
 	Stalled    []int      `json:"stalled,omitempty"`    // stall kind of the subscribers whose Send did block
 }
 
@@ -279,6 +289,8 @@ type memStream struct {
 	// onSend is called with the projected response before Send returns; a
 	// non-nil error is what Send returns.
 	onSend func(s *memStream, r Resp) error
+	// afterSend is called when Send is about to return successfully
+	afterSend func(s *memStream)
 }
 
 func newStream(i int, sc SubCfg) *memStream {
@@ -326,6 +338,9 @@ func (s *memStream) Send(r *pb.SubscribeResponse) error {
 	s.mu.Lock()
 	s.sent = append(s.sent, o)
 	s.mu.Unlock()
+	if s.afterSend != nil {
+		s.afterSend(s)
+	}
 	return nil
 }
 
